@@ -190,7 +190,10 @@ def check_case(spec):
         with h5py.File("dev2.h5", "r") as f:
             d2 = tdgl.Device.from_hdf5(f["some/group"])
         d3 = pickle.loads(pickle.dumps(dev))
-        for name, d in (("hdf5 path", d1), ("hdf5 group", d2), ("pickle", d3)):
+        # a loaded device saved and loaded once more (second generation)
+        d1.to_hdf5("dev3.h5")
+        d4 = tdgl.Device.from_hdf5("dev3.h5")
+        for name, d in (("hdf5 path", d1), ("hdf5 group", d2), ("pickle", d3), ("hdf5, saved again from the loaded device", d4)):
             if not (d == dev):
                 res.fail("C14.device_equal", f"device loaded via {name} compares unequal to the original")
             if d.mesh is None:
@@ -275,6 +278,12 @@ def check_case(spec):
             frames = None
             sol.to_hdf5("frommem.h5")
             paths.append(("from memory", "frommem.h5"))
+        # second generation: a loaded solution saved and loaded once more
+        try:
+            tdgl.Solution.from_hdf5(paths[-1][1]).to_hdf5("second.h5")
+            paths.append(("saved again from the loaded solution", "second.h5"))
+        except Exception as exc:  # noqa: BLE001
+            res.fail("C14.solution_resave", f"saving a loaded solution raised {type(exc).__name__}: {exc}")
         xs = dev.points[:5, 0]
         ys = dev.points[:5, 1]
         zs = np.zeros(5)
